@@ -53,6 +53,29 @@ def run(model, res, tier):
     purity.check_memo(res, c, 'R7', region, 'a label helper')
 
 
+class _Pattern(str):
+    """Pattern text together with the flags it is compiled with (the automata builder reads ``.flags``)."""
+
+    def __new__(cls, text, flags=0):
+        o = str.__new__(cls, text)
+        o.flags = flags
+        return o
+
+
+def _regex_flags(node):
+    """Value of a flags expression written with re.X | re.I | ... (AnalysisError for anything else: the language depends on it)."""
+    import re as _re
+    if node is None:
+        return 0
+    if isinstance(node, ast.Constant) and isinstance(node.value, int):
+        return node.value
+    if isinstance(node, ast.BinOp) and isinstance(node.op, ast.BitOr):
+        return _regex_flags(node.left) | _regex_flags(node.right)
+    if isinstance(node, ast.Attribute) and isinstance(node.value, ast.Name) and node.value.id == 're' and isinstance(getattr(_re, node.attr, None), int):
+        return int(getattr(_re, node.attr))
+    raise AnalysisError('flags of the label regex are not a constant expression: %s' % src(node))
+
+
 def label_regex(model, m):
     """(pattern, node, how it is applied) - the regex extract_label matches the label against."""
     f = m.functions['extract_label']
@@ -61,8 +84,8 @@ def label_regex(model, m):
             base = n.func.value
             r = model.resolve_attr_chain(m, base) if isinstance(base, (ast.Name, ast.Attribute)) else None
             if r and r[0] == 'const' and isinstance(r[3], ast.Call) and r[3].args and isinstance(r[3].args[0], ast.Constant):
-                flags = 0
-                return r[3].args[0].value, r[3], n.func.attr
+                flags = _regex_flags(r[3].args[1] if len(r[3].args) > 1 else ([kw.value for kw in r[3].keywords if kw.arg == 'flags'] or [None])[0])
+                return _Pattern(r[3].args[0].value, flags), r[3], n.func.attr
             if r and r[0] == 'extattr' and (r[1] + '.' + r[2]) in ('re.match', 're.fullmatch', 're.search') and n.args and isinstance(n.args[0], ast.Constant):
                 return n.args[0].value, n, n.func.attr
     raise AnalysisError('the regular expression used by extract_label was not found (anchor vanished)')
@@ -83,7 +106,7 @@ def _r1(model, res, m):
         return
     # match() anchors only the start; the end must be anchored by the pattern itself.  The automaton is built for the
     # whole-string language, so additionally require an end anchor in the pattern when match/search is used.
-    groups, layout = rx.group_nfas(pat)
+    groups, layout = rx.group_nfas(pat, getattr(pat, 'flags', 0))
     anchors = [x[1] for x in layout if x[0] == 'anchor']
     end_anchored = how == 'fullmatch' or any(a.endswith('AT_END') or a.endswith('AT_END_STRING') for a in anchors)
     start_anchored = how in ('match', 'fullmatch') or any('BEGINNING' in a for a in anchors)
@@ -123,6 +146,8 @@ def _r1(model, res, m):
 
 
 def _marker_group(v):
+    if isinstance(v, Atom) and v.op == 'took-part' and isinstance(v.args[0], Atom) and v.args[0].op == 'group':
+        return v.args[0].args[1].value      # R1 has established that the marker groups can only hold '$'
     if isinstance(v, Atom) and v.op == 'eq':
         for a, b in (v.args, tuple(reversed(v.args))):
             if isinstance(a, Atom) and a.op == 'group' and isinstance(b, Const) and b.value == '$':
@@ -210,6 +235,12 @@ def _r3(model, res, m):
                 if isinstance(n, ast.Call) and isinstance(n.func, ast.Name) and n.func.id in m.functions \
                         and n.func.id not in ('column_label_to_index', 'column_index_to_label'):
                     todo.append(m.functions[n.func.id])
+                if isinstance(n, ast.Call):
+                    # a module-local function handed on as a value (reduce(step, letters, 0), map(digit, label)) is part of the conversion
+                    for a_ in n.args:
+                        if isinstance(a_, ast.Name) and a_.id in m.functions and a_.id not in ('column_label_to_index', 'column_index_to_label') \
+                                and isinstance(m.functions[a_.id], ast.FunctionDef):
+                            todo.append(m.functions[a_.id])
         for n in body_nodes:
             if isinstance(n, ast.BinOp) and isinstance(n.op, (ast.Mod, ast.FloorDiv, ast.Div)):
                 v = guards.const_number(n.right, consts)
@@ -283,9 +314,19 @@ def _r3(model, res, m):
             res.ob('R3', '%s:%s' % (m.name, fname), 'letters are mapped through the alphabet constant', okm)
             # bijective numeration has no zero digit: a letter contributes its position in the alphabet plus one (A = 1 .. Z = 26)
             for fnd in finds:
-                par = m.parent(fnd)
-                plus1 = isinstance(par, ast.BinOp) and isinstance(par.op, ast.Add) and any(
-                    isinstance(x, ast.Constant) and x.value == 1 for x in (par.left, par.right))
+                # the sum the lookup is a term of (a + find(.) + 1 associates as (a + find(.)) + 1)
+                top = fnd
+                while isinstance(m.parent(top), ast.BinOp) and isinstance(m.parent(top).op, ast.Add):
+                    top = m.parent(top)
+                terms, todo_ = [], [top]
+                while todo_:
+                    x = todo_.pop()
+                    if isinstance(x, ast.BinOp) and isinstance(x.op, ast.Add):
+                        todo_ += [x.left, x.right]
+                    else:
+                        terms.append(x)
+                plus1 = top is not fnd and sum(1 for x in terms if isinstance(x, ast.Constant) and x.value == 1) == 1 and \
+                    not any(isinstance(x, ast.Constant) and x.value != 1 for x in terms)
                 res.ob('R3', '%s:%s' % (m.name, fname), 'letter value is %s + 1' % src(fnd), plus1)
                 if not plus1:
                     res.violation('R3', '%s:%s:zero-digit' % (m.name, fname), m.where(fnd),
